@@ -1,10 +1,90 @@
 import PhysisModel.Base.Proto
-namespace Physis.Driver.C02
-open Physis Physis.Proto
+import PhysisModel.Spec.SqPackData
+import PhysisModel.Model.Dat
+/-!
+Driver for C02.  Case grammar (one line, fields separated by single spaces):
 
-/-- one case line in, one answer line out (see `Base/Proto.lean`) -/
+  std <units> <suffix len> <blocks>
+  tex <units> <suffix len> <texture header hex> <mip>|<mip>|…          (mip = blocks)
+  mdl <units> <suffix len> <version>,<vertex decls>,<materials>,<lods>,<ibs 0|1>,<edge 0|1> <sec>|…  (11 sections: stack runtime v0 e0 i0 v1 e1 i1 v2 e2 i2; sec = blocks)
+
+* blocks   `-` (none) or `;`-separated `r<content hex>` (stored raw) | `d<content hex>/<deflate stream hex>`
+           (stored as that raw-deflate stream; produced by the harness with zlib's own `deflate`)
+* the entry is placed at offset `units * 128` of a dat file, behind a filler prefix and before a
+  filler suffix of `suffix len` bytes.
+
+`input` for the implementation: `<offset> <dat file hex>` — the file is `prefix ++ pack… ++ suffix`
+with the entry encoded by `Spec/SqPackData`.  Answer: extracted bytes as hex | `none` | `panic`.
+The model's `inflate` parameter is instantiated with the (stream ↦ content) pairs of the case.
+-/
+namespace Physis.Driver.C02
+open Physis Physis.Proto Physis.Spec.SqPackData
+
+def parseBlock (s : String) : Option Block := do
+  if s.startsWith "r" then
+    some { data := ← Bytes.ofHexFast (s.drop 1).toString, compressed := none }
+  else if s.startsWith "d" then
+    match (s.drop 1).toString.splitOn "/" with
+    | [d, c] => some { data := ← Bytes.ofHexFast d, compressed := some (← Bytes.ofHexFast c) }
+    | _ => none
+  else none
+
+def parseBlocks (s : String) : Option (List Block) :=
+  if s == "-" then some [] else (s.splitOn ";").mapM parseBlock
+
+def filler (n : Nat) (seed : Nat) : Bytes :=
+  (List.range n).map (fun i => ((i * 7 + seed) % 251 + 1).toUInt8)
+
+def inflateOf (bs : List Block) : Dat.Inflate := fun c n =>
+  match bs.find? (fun b => b.compressed == some c && b.data.length == n) with
+  | some b => some b.data
+  | none => none
+
+def showRes : Option (Option Bytes) → String
+  | none => "panic"
+  | some none => "none"
+  | some (some d) => Bytes.toHex d
+
+def finish (units suffix : Nat) (entry : Bytes) (all : List Block) (expected : Bytes) (wf : Bool) : String :=
+  let pre := filler (units * 128) 3
+  let file := pre ++ entry ++ filler suffix 5
+  let model := Dat.readFromOffset (inflateOf all) file (units * 128)
+  if wf then
+    answer (toString (units * 128) ++ " " ++ Bytes.toHex file) (Bytes.toHex expected) [] (some (showRes model))
+  else bad
+
 def handle (line : String) : String :=
   match fields line with
+  | ["std", units, suffix, blocks] =>
+    match (do
+      let bs ← parseBlocks blocks
+      some (finish (← units.toNat?) (← suffix.toNat?) (packStandard bs) bs (contents bs) (standardWf bs))) with
+    | some r => r
+    | none => bad
+  | ["tex", units, suffix, hdr, mips] =>
+    match (do
+      let hdr ← Bytes.ofHexFast hdr
+      let mips ← (mips.splitOn "|").mapM parseBlocks
+      some (finish (← units.toNat?) (← suffix.toNat?) (packTexture hdr mips) mips.flatten
+        (hdr ++ contents mips.flatten) (textureWf hdr mips))) with
+    | some r => r
+    | none => bad
+  | ["mdl", units, suffix, mt, secs] =>
+    match (do
+      let m ← (match mt.splitOn "," with
+        | [v, vd, mn, l, ibs, ege] => do
+          some ({ version := (← v.toNat?).toUInt32, vertexDeclarationNum := (← vd.toNat?).toUInt16,
+                  materialNum := (← mn.toNat?).toUInt16, numLods := (← l.toNat?).toUInt8,
+                  indexBufferStreaming := (← ibs.toNat?) == 1, edgeGeometry := (← ege.toNat?) == 1 } : ModelMeta)
+        | _ => none)
+      let secs ← (secs.splitOn "|").mapM parseBlocks
+      match secs with
+      | [st, rt, v0, e0, i0, v1, e1, i1, v2, e2, i2] =>
+        let s : ModelSections := ⟨st, rt, v0, e0, i0, v1, e1, i1, v2, e2, i2⟩
+        some (finish (← units.toNat?) (← suffix.toNat?) (packModel m s) s.all (unpackedModel m s) (modelWf s))
+      | _ => none) with
+    | some r => r
+    | none => bad
   | _ => bad
 
 end Physis.Driver.C02
